@@ -229,6 +229,7 @@ func runCase(c *fw.Ctx, data []byte) {
 	if e == nil || cs.Mode == "concurrent" {
 		procEnvN++
 		dir := filepath.Join(filepath.Dir(c.Scratch()), fmt.Sprintf("srv%d", procEnvN))
+		os.RemoveAll(dir) // a child that died (known fatal map race) may have left a half-written server there
 		os.MkdirAll(dir, 0o755)
 		var err error
 		e, err = startEnv(dir)
